@@ -118,7 +118,7 @@ func TestVerifC02Cut(t *testing.T) {
 	seed := int64(vC02CutEnvInt("VERIF_SEED", 1))
 	n := vC02CutEnvInt("VERIF_N", 100)
 	r := rand.New(rand.NewSource(seed*15485863 + 5))
-	labels := [][]byte{[]byte("a"), []byte("b"), []byte("c"), []byte("A"), []byte("x."), []byte("*"), {0}, []byte("zz")}
+	labels := [][]byte{[]byte("a"), []byte("b"), []byte("c"), []byte("A"), []byte("x."), []byte("*"), {0}, []byte("zz"), []byte("c.a"), []byte("b\\.a")}
 	lab := func() []byte { return labels[r.Intn(len(labels))] }
 	const maxTTL = 3600
 
@@ -317,6 +317,28 @@ func TestVerifC02Cut(t *testing.T) {
 				modelNow += s
 				ops = append(ops, fmt.Sprintf("OpAdvance (%d)", s))
 				desc = append(desc, fmt.Sprintf("advance %ds -> t=%d", s, modelNow))
+			case k == 6 && r.Intn(2) == 0: // operator purge of a question: removes the cuts at and above it
+				q := pick()
+				if len(acceptedNames) > 0 && r.Intn(2) == 0 {
+					d := acceptedNames[r.Intn(len(acceptedNames))]
+					switch r.Intn(3) {
+					case 0:
+						q = d
+					case 1:
+						q = append(vC02CutName{lab()}, d...)
+					default: // escaped-dot confusion: must NOT purge the cut
+						if len(d) > 0 {
+							q = append(vC02CutName{append(append(append([]byte(nil), lab()...), '.'), d[0]...)}, d[1:]...)
+						}
+					}
+				}
+				qclass := uint16(1)
+				if r.Intn(10) == 0 {
+					qclass = 3
+				}
+				store.Purge(dns.Question{Name: vC02CutPres(q), Qtype: dns.TypeA, Qclass: qclass})
+				ops = append(ops, fmt.Sprintf("OpPurge %s %d", vC02CutCoq(q), qclass))
+				desc = append(desc, fmt.Sprintf("t=%d purge %s class=%d", modelNow, vC02CutPres(q), qclass))
 			default: // lookup
 				q := pick()
 				if len(acceptedNames) > 0 && r.Intn(10) < 6 { // at or below an accepted cut
@@ -327,6 +349,23 @@ func TestVerifC02Cut(t *testing.T) {
 				}
 				if r.Intn(5) == 0 {
 					q = append(vC02CutName{lab()}, q...)
+				}
+				if len(acceptedNames) > 0 && r.Intn(6) == 0 {
+					// a label that merely ends with the text of an accepted cut's first label after a
+					// literal dot (or an escaped backslash and a dot): "x\.bar.example." is one label
+					// "x.bar" under example., not a descendant of the cut bar.example.
+					d := acceptedNames[r.Intn(len(acceptedNames))]
+					if len(d) > 0 {
+						l := append(append([]byte(nil), lab()...), '.')
+						if r.Intn(3) == 0 {
+							l = append(append([]byte(nil), lab()...), '\\', '.')
+						}
+						l = append(l, d[0]...)
+						q = append(vC02CutName{l}, d[1:]...)
+						if r.Intn(3) == 0 {
+							q = append(vC02CutName{lab()}, q...)
+						}
+					}
 				}
 				qclass := uint16(1)
 				switch r.Intn(15) {
